@@ -219,6 +219,19 @@ def _check_climb(chk: Check, fi: FuncInfo, call: ast.Call, text: str,
             problems.append(
                 "the climb loop must pop the path and the ancestry exactly "
                 "once per level (found {})".format(pops))
+        # the pops accumulate over the levels: neither object may be
+        # re-created inside the loop (a fresh copy per level loses all but
+        # the last pop)
+        for n in walk_local(loop):
+            if isinstance(n, (ast.Assign, ast.AnnAssign)):
+                tg = n.targets if isinstance(n, ast.Assign) else [n.target]
+                for t in tg:
+                    if src(t) in (path_v, anc_v):
+                        problems.append(
+                            "`{}` is re-assigned inside the climb loop: "
+                            "each level starts from a fresh copy, so only "
+                            "one segment is removed whatever the number of "
+                            "levels".format(src(t)))
         # node is what the last ancestry pop returned
         node_v = src(_arg(call, 0, "node"))
         got = False
@@ -466,18 +479,33 @@ DOCUMENTED = ["(", ")", "[", "]", "^", "$", "%", " ", "'", '"', "\\"]
 
 
 def escape_alphabet(prog: Program) -> Tuple[Set[str], bool]:
+    """(literal symbols escaped, separator escaped too?) -- from the
+    symbol list of escape_path_section: the arguments of its
+    ensure_escaped call, or the tuple/list of symbols it tests membership
+    against."""
     fi = prog.func("YAMLPath.escape_path_section")
+    sep_param = fi.params()[1]
     calls = [n for n in walk_local(fi.node) if isinstance(n, ast.Call)
              and src(n.func).endswith("ensure_escaped")]
-    if len(calls) != 1:
-        raise AnalysisError("escape_path_section no longer delegates to "
-                            "one ensure_escaped call")
+    elems: List[ast.AST] = []
+    if len(calls) == 1:
+        elems = list(calls[0].args[1:])
+    else:
+        tuples = [n for n in walk_local(fi.node)
+                  if isinstance(n, (ast.Tuple, ast.List, ast.Set)) and
+                  len(n.elts) >= 6 and any(
+                      isinstance(e, ast.Constant) and
+                      isinstance(e.value, str) for e in n.elts)]
+        if len(tuples) != 1:
+            raise AnalysisError("symbol list of escape_path_section not "
+                                "found")
+        elems = list(tuples[0].elts)
     syms: Set[str] = set()
     has_sep = False
-    for a in calls[0].args[1:]:
+    for a in elems:
         if isinstance(a, ast.Constant) and isinstance(a.value, str):
             syms.add(a.value)
-        elif "pathsep" in src(a):
+        elif sep_param in src(a):
             has_sep = True
     return syms, has_sep
 
@@ -612,9 +640,111 @@ def d5_alphabet(chk: Check) -> None:
                          if c in specials else "documented as escapable"))
 
 
+def d5b_post_lexing_specials(chk: Check) -> None:
+    """Characters that are special *after* lexing: the segment text is
+    handed to _expand_splats, which re-interprets every `*` whether or not
+    it was escaped.  Escaping can therefore not protect such a character;
+    the only spelling of a literal one is a quoted key, which the escaping
+    routine never produces."""
+    prog = chk.prog
+    chk.rule("C02-D5b", "a character that the post-lexing rewriting of a "
+             "key segment treats as an operator can be written literally by "
+             "the escaping routine", floor=1)
+    fi = prog.func("YAMLPath._expand_splats")
+    seg = fi.params()[1]
+    ops = set()
+    for n in walk_local(fi.node):
+        if isinstance(n, ast.Compare) and len(n.ops) == 1 and \
+                isinstance(n.ops[0], ast.In) and \
+                isinstance(n.left, ast.Constant) and \
+                isinstance(n.left.value, str) and \
+                src(n.comparators[0]) == seg:
+            ops.add(n.left.value)
+    if not ops:
+        raise AnalysisError("_expand_splats no longer tests for an operator "
+                            "character")
+    esc = prog.func("YAMLPath.escape_path_section")
+    syms, _ = escape_alphabet(prog)
+    pfi = prog.func("YAMLPath._parse_path")
+    # does the parser tell the rewriting which characters were escaped?
+    calls = [c for c in walk_local(pfi.node) if isinstance(c, ast.Call) and
+             src(c.func).endswith("._expand_splats")]
+    informed = all(len(c.args) + len(c.keywords) > len(fi.params())
+                   for c in calls) if calls else False
+    for c in sorted(ops):
+        text = "operator character {!r} of _expand_splats".format(c)
+        if c in syms and informed:
+            chk.ok("C02-D5b", esc, None, text, "escaped, and the rewriting "
+                   "is told which characters were escaped")
+        else:
+            chk.fail("C02-D5b", esc, None, text,
+                     "a key containing {!r} is reported as a path segment "
+                     "that re-parses as a wildcard search: escape_path_"
+                     "section {} it and _expand_splats rewrites the segment "
+                     "text without knowing what was escaped".format(
+                         c, "escapes" if c in syms else "does not escape"))
+
+
+RAW_SAMPLES = [
+    # (raw key text, separator) -> escaped text
+    ("a.b", ".", "a\\.b"), ("a b", ".", "a\\ b"), ("p/q", "/", "p\\/q"),
+    ("p/q", ".", "p/q"), ("a\\", ".", "a\\\\"),
+    ("r\\.s", ".", "r\\\\\\.s"), ("x\\[", ".", "x\\\\\\["),
+    ("plain", ".", "plain"),
+]
+
+
+def d5c_raw_text(chk: Check) -> None:
+    """escape_path_section receives *raw* document text.  A backslash in it
+    is data: it must be escaped itself, and it must not make the routine
+    believe that the special character after it is already escaped
+    (`r\\.s` is a key of four characters, not an escaped dot)."""
+    from sa.peval import Const, PEval
+    prog = chk.prog
+    chk.rule("C02-D5c", "escape_path_section escapes every special "
+             "character of raw text unconditionally (folded over sample "
+             "keys incl. backslash-before-special)", floor=1)
+    fi = prog.func("YAMLPath.escape_path_section")
+    chk.analysed(fi)
+    sec, sep = fi.params()[0], fi.params()[1]
+    delegates = [c for c in walk_local(fi.node) if isinstance(c, ast.Call)
+                 and src(c.func).endswith("ensure_escaped")]
+    if delegates:
+        ens = prog.func("YAMLPath.ensure_escaped")
+        skips = any(isinstance(c, ast.Call) and
+                    isinstance(c.func, ast.Attribute) and
+                    c.func.attr == "split" for c in walk_local(ens.node))
+        if skips:
+            chk.fail("C02-D5c", fi, delegates[0],
+                     "delegates to ensure_escaped",
+                     "ensure_escaped leaves a special character alone when "
+                     "a backslash precedes it (it splits on the escaped "
+                     "form): in raw text that backslash is data, so the key "
+                     "`r\\.s` is written as `r\\\\.s`, which parses as the "
+                     "two keys `r\\` and `s`")
+            return
+    pe = PEval()
+    for raw, sp, want in RAW_SAMPLES:
+        env = {sec: Const(raw), "str({})".format(sec): Const(raw),
+               "str({})".format(sep): Const(sp)}
+        pe.specialise(fi.node.body, env, pinned=[sec, sep])
+        rets = [r for r in pe.returned]
+        text = "escape_path_section({!r}, {!r})".format(raw, sp)
+        if len(rets) != 1 or not isinstance(rets[0][1], Const):
+            raise AnalysisError(text + " not decided by constant folding")
+        got = rets[0][1].value
+        if got == want:
+            chk.ok("C02-D5c", fi, fi.node, text, "-> {!r}".format(got))
+        else:
+            chk.fail("C02-D5c", fi, fi.node, text,
+                     "gives {!r}, expected {!r}".format(got, want))
+
+
 def run(chk: Check) -> None:
     funcs = evaluator_functions(chk.prog)
     d1_sites(chk, funcs)
     d2_calls(chk, funcs)
     d3_immutable(chk, funcs)
     d5_alphabet(chk)
+    d5b_post_lexing_specials(chk)
+    d5c_raw_text(chk)
